@@ -10,7 +10,7 @@
 From Coq Require Import List NArith Arith Bool.
 From Verif.Common Require Import Prefix.
 From Coq Require Import Permutation.
-From Verif.C43 Require Import Model Spec Proofs Final FinalProofs Blackhole MgrProofs FlushPerm Reflag Peer PoolUpd Order.
+From Verif.C43 Require Import Model Spec Proofs Final FinalProofs Blackhole MgrProofs FlushPerm Reflag Peer PoolUpd Chain Order.
 Import ListNotations.
 Open Scope N_scope.
 
@@ -152,12 +152,29 @@ Theorem c43_reflag_complete_pool : forall f s c v k po n,
 Proof. exact pool_update_complete. Qed.
 Print Assumptions c43_reflag_complete_pool.
 
+(* (4) ORDER INDEPENDENCE, PARTIAL: along EVERY history of node and pool updates -- any order, reverts,
+       deletions, the local node gaining / losing its IPv4 subnet, peers moving between subnets, pool modes
+       flipping -- a sent remote block / borrowed-address route stays exactly what flush() computes from the
+       current trie and node table, i.e. the result does not depend on the order in which those updates arrived
+       (repaired variant; [good] = dirty set empty, k's own entry is a sent block entry of remote node n indexed in
+       nodeRoutes, and the route is up to date; [op_ok]: node or pool update, no node takes k as its address). *)
+Theorem c43_order_independent_partial : forall ops s k n, wfp 32 k -> k <> host32 0 -> n <> me ->
+  good s k n -> Forall (op_ok k) ops -> good (fold_left (apply_op true) ops s) k n.
+Proof. exact node_pool_history_keeps_fresh. Qed.
+Print Assumptions c43_order_independent_partial.
+
+Example c43_good_reachable : good (run true hist_plain) w_block 1.
+Proof.
+  split; [vm_compute; reflexivity|]. split; [eexists; vm_compute; reflexivity|].
+  split; [exists 1%nat; vm_compute; auto|vm_compute; reflexivity].
+Qed.
+
 (* c43_order_independent at full strength (for every history of the repaired resolver, the kernel routes of the
    remote destinations = programmed (state_of history)) is NOT proved.  Missing: (a) the trie content as a function
    of the datastore state (the blockToRoutes / nodeRoutes / workloadIDToCIDRs bookkeeping of OnBlockUpdate and
-   OnWorkloadUpdate, which needs "block keys never overlap"), (b) the block / workload update steps (there only the
-   kernel-relevant projection of a route stays up to date: Borrowed and the LOCAL/REMOTE_WORKLOAD bits inherited from
-   a parent block are not re-flagged when the parent changes), (c) chaining (1)-(3) along a history.  The
+   OnWorkloadUpdate, which needs "block keys never overlap"), (b) the block / workload update steps in the chain
+   (there only the kernel-relevant projection of a route stays up to date: Borrowed and the LOCAL/REMOTE_WORKLOAD
+   bits inherited from a parent block are not re-flagged when the parent changes).  The
    correspondence run compares the real resolver with the function of the final state on every case instead.
    On the witnesses above the repaired variant does reach the function of the state: *)
 Example c43_order_witnesses_fixed :
